@@ -1009,7 +1009,8 @@ def sheet_streams(ctx):
             for it in W.all_rows(its):
                 if it[1] in W.KIND_OF_ROW and it[3]:
                     rc = W.route_class(it[6], it[5])
-                    ctx.count(f"{prefix}_objid_{it[1]}@{rc}")
+                    ctx.count(f"{prefix}_objid_type_{it[1]}@{'block' if it[5] else 'sheet'}")
+                    ctx.count(f"{prefix}_objid_route_{rc}")
                     nt = nt or rc != "sheet"
         ctx.count(f"{prefix}_blocks_%d" % len(wb["blocks"]))
         ctx.count(f"{prefix}_flows_%d" % len(ex["flows"]))
@@ -1069,7 +1070,8 @@ def sheet_streams(ctx):
         ex = W.expand(wb)
         res = W.run_impl_hist(wb, ops)
         ctx.count("sh_stop_" + (res["stop"][1] if res["stop"] else "none"))
-        ctx.count("sh_ops_" + "".join({"pf": "p", "rg": "g", "rf": "f", "ac": "c", "at": "t", "render": "R"}[o[0]] for o in ops)[:1] + "..")
+        ctx.count("sh_sheets_parsed_%d" % sum(1 for o in ops if o[0] == "pf"))
+        ctx.count("sh_record_ops_%d" % sum(1 for o in ops if o[0] in ("rg", "rf")))
         ctx.count("sh_renders_%d" % sum(1 for o in ops if o[0] == "render"))
         first = [j for j, o in enumerate(ops) if o[0] == "render"][0]
         ctx.count("sh_parse_after_first_render" if any(o[0] == "pf" for o in ops[first:]) else "sh_all_parsed_before_first_render")
